@@ -74,6 +74,11 @@ type Sched struct {
 	PoolFresh bool
 }
 
+// atomicPoints are the hooked locations the library accesses with sync/atomic
+// (FieldQuery.hash since the fix that publishes it atomically). The free-running
+// race-detector pass is what notices if one of them becomes a plain access again.
+var atomicPoints = map[int]bool{5: true, 6: true}
+
 type abortSignal struct{}
 
 func join(a, b []int) []int {
@@ -149,6 +154,15 @@ func (s *Sched) onPoint(id int, addr unsafe.Pointer, write bool) {
 		s.res.PointTrace = append(s.res.PointTrace, fmt.Sprintf("T%d point%d w=%v", t.id, id, write))
 	}
 	s.yieldPoint()
+	if atomicPoints[id] {
+		// the access that follows the point is an atomic load/store (a synchronisation
+		// operation, not a plain access): a scheduling point and a happens-before edge
+		s.acquire(addr)
+		if write {
+			s.release(addr)
+		}
+		return
+	}
 	// race check at the moment the access happens
 	l := s.locs[addr]
 	if l == nil {
